@@ -44,6 +44,28 @@ func ZZ_C18_Compile() {
 }
 
 
+// ZZ_C18_EmptyVarsCall: two dependencies call the same task T, whose last command is a call
+// of L with an explicitly empty `vars: {}` block: the (empty) set of the definition must not
+// become the variables of the calls made from the concurrent executions of T (looking a task
+// up writes MATCH into the variables of the call).
+func ZZ_C18_EmptyVarsCall() {
+	g := &zzGraph{Tasks: []zzTask{
+		{Name: "R", Deps: []string{"A", "B"}},
+		{Name: "A", Cmds: []zzCmd{{Call: "T"}, {Call: "T"}}}, // (a second execution, after the first looked L up)
+		{Name: "B", Cmds: []zzCmd{{Call: "T"}}},
+		{Name: "T", Cmds: []zzCmd{{}, {Call: "L"}}}, // (a command between compiling T and calling L)
+		{Name: "L", Cmds: []zzCmd{{}}},
+	}}
+	tf := g.build(func(string) bool { return false })
+	t, _ := tf.Tasks.Get("T")
+	t.Cmds[1].Vars = ast.NewVars()
+	_, _ = zzExec(g, tf, zzRunOpts{}, "R")
+	if zz.Twin() {
+		zz.Assert(false, "twin")
+	}
+	zz.Reach("end")
+}
+
 // ZZ_C18_Deferred: two dependencies call the same task, which has a deferred
 // command with a template, concurrently.
 func ZZ_C18_Deferred() {
